@@ -278,10 +278,11 @@ class IMAPClientProxy:
                 if self.cmd_processor.idling:
                     ls_imap_msg = imap_msg.lower().strip()
                     if ls_imap_msg.endswith("idle"):
-                        await self.push("+ idling")
+                        await self.push("+ idling\r\n")
                     elif ls_imap_msg != "done":
+                        shown = " ".join(imap_msg.splitlines())
                         await self.push(
-                            f"* NO Expected 'DONE' not: {imap_msg}\r\n"
+                            f"* NO Expected 'DONE' not: {shown}\r\n"
                         )
                     else:
                         await self.cmd_processor.do_done()
@@ -298,10 +299,11 @@ class IMAPClientProxy:
                     # the client so it knows what message we had problems with.
                     #
                     logger.debug("*** Bad command! '%s'", imap_msg)
+                    reason = " ".join(str(e).splitlines())
                     if imap_cmd.tag is not None:
-                        await self.push(f"{imap_cmd.tag} BAD {e}\r\n")
+                        await self.push(f"{imap_cmd.tag} BAD {reason}\r\n")
                     else:
-                        await self.push(f"* BAD {e}\r\n")
+                        await self.push(f"* BAD {reason}\r\n")
                     continue
 
                 # Pass the command on to the command processor to handle.
